@@ -84,18 +84,23 @@ def gen_body(rng):
                 if not c02.in_known_region(t, {}):        # open C02 findings: behaviour differs from bash however the function got defined
                     break
             parts.append(gen_prog.render(t, probes=False))
-    form = rng.choice(["brace", "brace", "brace", "subshell", "brace_redir", "brace_redir2"])
+    form = rng.choice(["brace", "brace", "brace", "subshell", "brace_redir", "brace_redir2", "brace_redir_arg", "brace_herestr_arg"])
     body = "\n".join(parts)
     if form == "brace":
         return "f() {\n%s\n}" % body
     if form == "subshell":
         return "f() (\n%s\n)" % body
+    if form == "brace_redir_arg":
+        # redirections on the definition are expanded when the function is called, with the function's own arguments
+        return "f() {\n%s\n} > \"fbody.$1\"" % body
+    if form == "brace_herestr_arg":
+        return "f() {\ncat\n%s\n} <<< \"hs $1 $#\"" % body
     if form == "brace_redir":
         return "f() {\n%s\n} > fbody.f" % body
     return "f() {\n%s\n} >> fbody.f 2>&1 < /dev/null" % body
 
 
-TRACE = ('f p1 "a b"\necho "@rc $?"\nwait\nfor o in out.f err.f fbody.f fd3.f out5.f po.f; do [ -f $o ] && { echo "@file $o"; cat $o; }; done\necho "@end"\n')
+TRACE = ('f p1 "a b"\necho "@rc $?"\nwait\nfor o in out.f err.f fbody.f fbody.p1 fd3.f out5.f po.f; do [ -f $o ] && { echo "@file $o"; cat $o; }; done\necho "@end"\n')
 
 
 def run_in(shell, script, extra_env=None):
